@@ -53,16 +53,26 @@ def has_zip_below(spec, i):
     return any(spec["nodes"][c]["k"] == "zip" for c in seen)
 
 
-def expected_sync(i, nd, ins):
-    """documented outputs of a synchronous node for the observed arrivals (values + md)"""
-    m = KINDS[nd["k"]](i, nd, _G())
+def expected_sync(i, nd, ins, faults=None):
+    """documented outputs of a synchronous node for the observed arrivals (values + md).
+    faults: invocation indices of this node's user function that raise: the node keeps the state
+    it had before the call and the element counts as never offered."""
+    from .elements import Boom
+    g = _G()
+    if faults:
+        g = _G()
+        g.faults = {i: set(faults)}
+    m = KINDS[nd["k"]](i, nd, g)
     out = []
     for a in ins:
         if a[0] == "flush":
             out.append(m.flush())
             continue
         who, x, md = a[0], a[1], a[2]
-        out.extend(m.update(x, md or [], who))
+        try:
+            out.extend(list(m.update(x, md or [], who)))
+        except Boom:
+            pass
     return out, m
 
 
